@@ -9,14 +9,16 @@ import (
 	"golang.org/x/tools/go/ssa"
 )
 
-// env is a persistent map phi -> resolved value along one path.
+// env is a persistent map value -> resolved value along one path: phis as
+// bound by the edge taken, parameters of inlined callees as bound to the call's
+// arguments, results of inlined calls as bound to what the callee returned.
 type env struct {
-	phi    *ssa.Phi
+	phi    ssa.Value
 	val    ssa.Value
 	parent *env
 }
 
-func (e *env) lookup(p *ssa.Phi) ssa.Value {
+func (e *env) lookup(p ssa.Value) ssa.Value {
 	for x := e; x != nil; x = x.parent {
 		if x.phi == p {
 			return x.val
@@ -25,11 +27,31 @@ func (e *env) lookup(p *ssa.Phi) ssa.Value {
 	return nil
 }
 
+// resolve follows the bindings of e (and the static bindings bind) to a fixpoint.
+func (e *env) resolve(v ssa.Value, bind map[ssa.Value]ssa.Value) ssa.Value {
+	for i := 0; i < 64; i++ {
+		if b, ok := bind[v]; ok {
+			v = b
+			continue
+		}
+		switch v.(type) {
+		case *ssa.Phi, *ssa.Parameter, *ssa.Call, *ssa.Extract:
+			if r := e.lookup(v); r != nil && r != v {
+				v = r
+				continue
+			}
+		}
+		break
+	}
+	return v
+}
+
 // Step is one instruction executed on a path.
 type Step struct {
 	In       ssa.Instruction
 	Deferred bool // the deferred call registered by In (*ssa.Defer) is running
 	Env      *env
+	Depth    int // 0 = the enumerated function itself, >0 = inside an inlined callee
 }
 
 // Atom is a canonical branch condition: eq(L,R), lt(L,R) or true(L), possibly negated.
@@ -73,30 +95,24 @@ type PathOpts struct {
 	Bind         map[ssa.Value]ssa.Value // parameter bindings (e.g. force -> false)
 	Limit        int                     // max number of paths (default 50000)
 	From         *ssa.BasicBlock         // start block (default: entry)
+	// Inline, when set, decides which statically resolved calls are expanded in
+	// place (the callee's blocks become part of the path, its parameters are bound
+	// to the arguments and the call's results to what it returns on that path).
+	// Recursion is never inlined; depth is limited to InlineDepth (default 2).
+	Inline      func(caller *ssa.Function, call *ssa.Call, callee *ssa.Function) bool
+	InlineDepth int
 }
 
 // Resolve follows phis (as bound on this path at step s) and parameter bindings.
 func (pa *Path) Resolve(s Step, v ssa.Value) ssa.Value {
-	for i := 0; i < 32; i++ {
-		if b, ok := pa.bind[v]; ok {
-			v = b
-			continue
-		}
-		if ph, ok := v.(*ssa.Phi); ok {
-			if r := s.Env.lookup(ph); r != nil {
-				v = r
-				continue
-			}
-		}
-		break
-	}
-	return v
+	return s.Env.resolve(v, pa.bind)
 }
 
-// TermsAt returns a term builder resolving phis as of step s.
+// TermsAt returns a term builder resolving phis (and inlined parameters /
+// call results) as of step s.
 func (pa *Path) TermsAt(s Step) *Terms {
-	return pa.p.NewTerms(func(ph *ssa.Phi) ssa.Value {
-		if r := s.Env.lookup(ph); r != nil {
+	return pa.p.NewTerms(func(v ssa.Value) ssa.Value {
+		if r := s.Env.resolve(v, pa.bind); r != v {
 			return r
 		}
 		return nil
@@ -219,6 +235,14 @@ func neverNil(v ssa.Value) bool {
 	case *ssa.Slice:
 		_ = x
 		return false
+	case *ssa.Call:
+		// freshly built errors are never nil
+		if sc := x.Call.StaticCallee(); sc != nil {
+			switch sc.String() {
+			case "fmt.Errorf", "errors.New":
+				return true
+			}
+		}
 	}
 	return false
 }
@@ -226,6 +250,31 @@ func neverNil(v ssa.Value) bool {
 type fact struct {
 	pol   bool
 	local bool // mentions a non-parameter, non-constant value
+}
+
+// inlineFrame is one activation on the inline stack.
+type inlineFrame struct {
+	fn      *ssa.Function
+	call    *ssa.Call // call being expanded (nil for the root)
+	retBlk  *ssa.BasicBlock
+	retIdx  int // index of the instruction after the call in retBlk
+	parent  *inlineFrame
+	depth   int
+	visits  map[*ssa.BasicBlock]int
+	headers map[*ssa.BasicBlock]bool
+	defers  []*ssa.Defer
+}
+
+func loopHeaders(fn *ssa.Function) map[*ssa.BasicBlock]bool {
+	header := map[*ssa.BasicBlock]bool{}
+	for _, b := range fn.Blocks {
+		for _, s := range b.Succs {
+			if s.Dominates(b) {
+				header[s] = true
+			}
+		}
+	}
+	return header
 }
 
 // EnumPaths enumerates the feasible acyclic (bounded-loop) paths of fn.
@@ -236,89 +285,73 @@ func (p *Prog) EnumPaths(fn *ssa.Function, opts PathOpts) ([]*Path, int, error) 
 	if opts.Limit == 0 {
 		opts.Limit = 50000
 	}
-	// loop headers: targets of back edges (edge to a dominator)
-	header := map[*ssa.BasicBlock]bool{}
-	for _, b := range fn.Blocks {
-		for _, s := range b.Succs {
-			if s.Dominates(b) {
-				header[s] = true
-			}
-		}
+	if opts.InlineDepth == 0 {
+		opts.InlineDepth = 2
 	}
 	var out []*Path
 	pruned := 0
 	var err error
-	visits := map[*ssa.BasicBlock]int{}
 	var blocks []*ssa.BasicBlock
 	var steps []Step
 	var atoms []Atom
 	facts := map[string]fact{}
 	eqConst := map[string]string{}
-	var defers []*ssa.Defer
 
 	resolveWith := func(e *env) func(ssa.Value) ssa.Value {
-		return func(v ssa.Value) ssa.Value {
-			for i := 0; i < 32; i++ {
-				if b, ok := opts.Bind[v]; ok {
-					v = b
-					continue
-				}
-				if ph, ok := v.(*ssa.Phi); ok {
-					if r := e.lookup(ph); r != nil {
-						v = r
-						continue
-					}
-				}
-				break
-			}
-			return v
-		}
+		return func(v ssa.Value) ssa.Value { return e.resolve(v, opts.Bind) }
 	}
 
-	var walk func(b *ssa.BasicBlock, from *ssa.BasicBlock, e *env)
-	walk = func(b *ssa.BasicBlock, from *ssa.BasicBlock, e *env) {
+	var walk func(fr *inlineFrame, b *ssa.BasicBlock, startIdx int, from *ssa.BasicBlock, e *env)
+	walk = func(fr *inlineFrame, b *ssa.BasicBlock, startIdx int, from *ssa.BasicBlock, e *env) {
 		if err != nil {
 			return
 		}
-		max := 1
-		if header[b] {
-			max = opts.HeaderVisits
-		}
-		if visits[b] >= max {
-			return // loop bound reached: this continuation is not explored
-		}
-		visits[b]++
-		blocks = append(blocks, b)
-		nSteps, nAtoms, nDefers := len(steps), len(atoms), len(defers)
-		// save facts (small maps): copy-on-entry
-		savedFacts := make(map[string]fact, len(facts))
-		for k, v := range facts {
-			savedFacts[k] = v
-		}
-		savedEq := make(map[string]string, len(eqConst))
-		for k, v := range eqConst {
-			savedEq[k] = v
-		}
-		if visits[b] > 1 {
-			// second visit of a loop header: registers defined in the loop get new values
-			for k, f := range facts {
-				if f.local {
-					delete(facts, k)
-					delete(eqConst, k)
+		entered := startIdx == 0
+		nSteps, nAtoms, nDefers := len(steps), len(atoms), len(fr.defers)
+		var savedFacts map[string]fact
+		var savedEq map[string]string
+		if entered {
+			max := 1
+			if fr.headers[b] {
+				max = opts.HeaderVisits
+			}
+			if fr.visits[b] >= max {
+				return // loop bound reached: this continuation is not explored
+			}
+			fr.visits[b]++
+			blocks = append(blocks, b)
+			// save facts (small maps): copy-on-entry
+			savedFacts = make(map[string]fact, len(facts))
+			for k, v := range facts {
+				savedFacts[k] = v
+			}
+			savedEq = make(map[string]string, len(eqConst))
+			for k, v := range eqConst {
+				savedEq[k] = v
+			}
+			if fr.visits[b] > 1 {
+				// second visit of a loop header: registers defined in the loop get new values
+				for k, f := range facts {
+					if f.local {
+						delete(facts, k)
+						delete(eqConst, k)
+					}
 				}
 			}
 		}
 		defer func() {
-			visits[b]--
-			blocks = blocks[:len(blocks)-1]
+			if entered {
+				fr.visits[b]--
+				blocks = blocks[:len(blocks)-1]
+				facts = savedFacts
+				eqConst = savedEq
+			}
 			steps = steps[:nSteps]
 			atoms = atoms[:nAtoms]
-			defers = defers[:nDefers]
-			facts = savedFacts
-			eqConst = savedEq
+			fr.defers = fr.defers[:nDefers]
 		}()
 		// bind phis (parallel)
-		if from != nil {
+		if entered && from != nil {
 			idx := -1
 			for i, pr := range b.Preds {
 				if pr == from {
@@ -339,19 +372,62 @@ func (p *Prog) EnumPaths(fn *ssa.Function, opts PathOpts) ([]*Path, int, error) 
 			e = ne
 		}
 		res := resolveWith(e)
-		for _, in := range b.Instrs {
+		for ii := startIdx; ii < len(b.Instrs); ii++ {
+			in := b.Instrs[ii]
 			switch x := in.(type) {
 			case *ssa.Phi, *ssa.DebugRef:
 				continue
 			case *ssa.Defer:
-				defers = append(defers, x)
-				steps = append(steps, Step{In: in, Env: e})
+				fr.defers = append(fr.defers, x)
+				steps = append(steps, Step{In: in, Env: e, Depth: fr.depth})
 			case *ssa.RunDefers:
-				for i := len(defers) - 1; i >= 0; i-- {
-					steps = append(steps, Step{In: defers[i], Deferred: true, Env: e})
+				for i := len(fr.defers) - 1; i >= 0; i-- {
+					steps = append(steps, Step{In: fr.defers[i], Deferred: true, Env: e, Depth: fr.depth})
 				}
-			case *ssa.Return, *ssa.Panic:
-				steps = append(steps, Step{In: in, Env: e})
+			case *ssa.Call:
+				steps = append(steps, Step{In: in, Env: e, Depth: fr.depth})
+				callee := x.Call.StaticCallee()
+				if opts.Inline == nil || callee == nil || callee.Blocks == nil || fr.depth >= opts.InlineDepth || !opts.Inline(fr.fn, x, callee) {
+					continue
+				}
+				rec := false
+				for f := fr; f != nil; f = f.parent {
+					if f.fn == callee {
+						rec = true
+					}
+				}
+				if rec {
+					continue
+				}
+				// expand: bind parameters, walk the callee, resume after the call
+				ne := e
+				for i, prm := range callee.Params {
+					if i < len(x.Call.Args) {
+						ne = &env{phi: prm, val: res(x.Call.Args[i]), parent: ne}
+					}
+				}
+				nf := &inlineFrame{fn: callee, call: x, retBlk: b, retIdx: ii + 1, parent: fr, depth: fr.depth + 1,
+					visits: map[*ssa.BasicBlock]int{}, headers: loopHeaders(callee)}
+				walk(nf, callee.Blocks[0], 0, nil, ne)
+				return
+			case *ssa.Return:
+				steps = append(steps, Step{In: in, Env: e, Depth: fr.depth})
+				if fr.parent != nil {
+					// return from an inlined callee: bind the call's results and resume the caller
+					rv := RetVals(x)
+					ne := e
+					if len(rv) == 1 {
+						ne = &env{phi: fr.call, val: res(rv[0]), parent: ne}
+					} else {
+						for _, ref := range nonDebugRefs(fr.call) {
+							if ex, ok := ref.(*ssa.Extract); ok && ex.Index < len(rv) {
+								ne = &env{phi: ex, val: res(rv[ex.Index]), parent: ne}
+							}
+						}
+					}
+					walk(fr.parent, fr.retBlk, fr.retIdx, nil, ne)
+					return
+				}
 				pa := &Path{Fn: fn, p: p, bind: opts.Bind, End: in}
 				pa.Blocks = append(pa.Blocks, blocks...)
 				pa.Steps = append(pa.Steps, steps...)
@@ -361,33 +437,44 @@ func (p *Prog) EnumPaths(fn *ssa.Function, opts PathOpts) ([]*Path, int, error) 
 					err = fmt.Errorf("more than %d paths in %s", opts.Limit, fn)
 				}
 				return
+			case *ssa.Panic:
+				steps = append(steps, Step{In: in, Env: e, Depth: fr.depth})
+				pa := &Path{Fn: fn, p: p, bind: opts.Bind, End: in}
+				pa.Blocks = append(pa.Blocks, blocks...)
+				pa.Steps = append(pa.Steps, steps...)
+				pa.Atoms = append(pa.Atoms, atoms...)
+				out = append(out, pa)
+				return
 			case *ssa.If:
-				steps = append(steps, Step{In: in, Env: e})
+				steps = append(steps, Step{In: in, Env: e, Depth: fr.depth})
 				cv := res(x.Cond)
 				// constant folding
 				if bv, ok := constBool(cv); ok {
 					if bv {
-						walk(b.Succs[0], b, e)
+						walk(fr, b.Succs[0], 0, b, e)
 					} else {
-						walk(b.Succs[1], b, e)
+						walk(fr, b.Succs[1], 0, b, e)
 					}
 					return
 				}
 				if bo, ok := cv.(*ssa.BinOp); ok && (bo.Op == token.EQL || bo.Op == token.NEQ) {
 					cx, okx := res(bo.X).(*ssa.Const)
 					cy, oky := res(bo.Y).(*ssa.Const)
-					if okx && oky && cx.Value != nil && cy.Value != nil {
-						eq := cx.Value.ExactString() == cy.Value.ExactString()
+					if okx && oky && ((cx.Value != nil && cy.Value != nil) || (cx.IsNil() && cy.IsNil())) {
+						eq := cx.IsNil() && cy.IsNil()
+						if !eq {
+							eq = cx.Value.ExactString() == cy.Value.ExactString()
+						}
 						if (bo.Op == token.EQL) == eq {
-							walk(b.Succs[0], b, e)
+							walk(fr, b.Succs[0], 0, b, e)
 						} else {
-							walk(b.Succs[1], b, e)
+							walk(fr, b.Succs[1], 0, b, e)
 						}
 						pruned++
 						return
 					}
 				}
-				at := p.atomOf(cv, res, e)
+				at := p.atomOf(cv, res, e, opts.Bind)
 				at.If = x
 				for _, taken := range []bool{true, false} {
 					pol := taken != at.Neg // polarity of the positive atom
@@ -450,9 +537,9 @@ func (p *Prog) EnumPaths(fn *ssa.Function, opts PathOpts) ([]*Path, int, error) 
 					a.Neg = !pol
 					atoms = append(atoms, a)
 					if taken {
-						walk(b.Succs[0], b, e)
+						walk(fr, b.Succs[0], 0, b, e)
 					} else {
-						walk(b.Succs[1], b, e)
+						walk(fr, b.Succs[1], 0, b, e)
 					}
 					atoms = atoms[:len(atoms)-1]
 					if !had {
@@ -464,10 +551,10 @@ func (p *Prog) EnumPaths(fn *ssa.Function, opts PathOpts) ([]*Path, int, error) 
 				}
 				return
 			case *ssa.Jump:
-				walk(b.Succs[0], b, e)
+				walk(fr, b.Succs[0], 0, b, e)
 				return
 			default:
-				steps = append(steps, Step{In: in, Env: e})
+				steps = append(steps, Step{In: in, Env: e, Depth: fr.depth})
 			}
 		}
 	}
@@ -475,14 +562,20 @@ func (p *Prog) EnumPaths(fn *ssa.Function, opts PathOpts) ([]*Path, int, error) 
 	if start == nil {
 		start = fn.Blocks[0]
 	}
-	walk(start, nil, nil)
+	root := &inlineFrame{fn: fn, visits: map[*ssa.BasicBlock]int{}, headers: loopHeaders(fn)}
+	walk(root, start, 0, nil, nil)
 	return out, pruned, err
 }
 
 // atomOf canonicalises a branch condition. The returned atom is positive
 // (Neg describes how the condition value relates to the positive atom).
-func (p *Prog) atomOf(cv ssa.Value, res func(ssa.Value) ssa.Value, e *env) Atom {
-	tb := p.NewTerms(func(ph *ssa.Phi) ssa.Value { return e.lookup(ph) })
+func (p *Prog) atomOf(cv ssa.Value, res func(ssa.Value) ssa.Value, e *env, bind map[ssa.Value]ssa.Value) Atom {
+	tb := p.NewTerms(func(v ssa.Value) ssa.Value {
+		if r := e.resolve(v, bind); r != v {
+			return r
+		}
+		return nil
+	})
 	neg := false
 	for {
 		if u, ok := cv.(*ssa.UnOp); ok && u.Op == token.NOT {
